@@ -1,12 +1,13 @@
 (* C07 — Conversions, copies, transposes and sums preserve the represented operator.
    Property-level theorems only; each is closed by a lemma from Sparse/*Proofs.v.
    `den_X A i j` is the sum of all stored values of A at (i,j): the operator A represents. *)
-From Raptor Require Import Base.Sums Sparse.Defs Sparse.ConvertProofs.
+From Raptor Require Import Base.Sums Sparse.Defs Sparse.ConvertProofs Sparse.SortProofs.
 
 Section C07.
 Variable F : Type.
 Variables (zero one : F) (add mul sub : F -> F -> F) (opp : F -> F).
 Variable Fth : ring_theory zero one add mul sub opp (@eq F).
+Variable small : F -> bool.      (* |v| < 1e-16 *)
 
 Notation denCoo := (den_coo F zero add).
 Notation denCsr := (den_csr F zero add).
@@ -67,6 +68,55 @@ Theorem C07_csc_transpose (A : csc F) : csc_wf A ->
   csc_nr (csc_transpose A) = csc_nc A /\ csc_nc (csc_transpose A) = csc_nr A.
 Proof. intros H. split; [intros; apply den_csc_transpose; assumption|split; reflexivity]. Qed.
 
+(* sorting: operator unchanged, every line sorted by index *)
+Theorem C07_sort (A : coo F) (B : csr F) (C : csc F) :
+  (forall i j, denCoo (coo_sort A) i j = denCoo A i j) /\
+  (forall i j, denCsr (csr_sort B) i j = denCsr B i j) /\
+  (forall i j, denCsc (csc_sort C) i j = denCsc C i j) /\
+  (forall r, In r (csr_rows (csr_sort B)) -> sortedb le_fst r = true).
+Proof.
+  split; [intros; apply (den_coo_sort _ _ _ _ _ _ _ Fth)|].
+  split; [intros; apply (den_csr_sort _ _ _ _ _ _ _ Fth)|].
+  split; [intros; apply (den_csc_sort _ _ _ _ _ _ _ Fth)|].
+  intros r Hr. eapply csr_sort_sorted. exact Hr.
+Qed.
+
+(* moving diagonals first: operator unchanged; a line that stores its diagonal starts with it *)
+Theorem C07_move_diag (B : csr F) (C : csc F) :
+  (forall i j, denCsr (csr_move_diag B) i j = denCsr B i j) /\
+  (forall i j, denCsc (csc_move_diag C) i j = denCsc C i j) /\
+  (forall i, i < length (csr_rows B) -> (exists p, In p (nth i (csr_rows B) []) /\ fst p = i) ->
+     exists d rest, nth i (csr_rows (csr_move_diag B)) [] = d :: rest /\ fst d = i).
+Proof.
+  split; [intros; apply (den_csr_move_diag _ _ _ _ _ _ _ Fth)|].
+  split; [intros; apply (den_csc_move_diag _ _ _ _ _ _ _ Fth)|].
+  intros i Hi H. apply csr_move_diag_first; assumption.
+Qed.
+
+(* merging duplicates: each position keeps the sum of its entries unless that sum is below the
+   drop tolerance; afterwards a line holds at most one entry per index *)
+Theorem C07_remove_duplicates (B : csr F) (C : csc F) :
+  (forall i j, denCsr (csr_remove_duplicates F add small B) i j = drop F zero small (denCsr B i j)) /\
+  (forall i j, denCsc (csc_remove_duplicates F add small C) i j = drop F zero small (denCsc C i j)) /\
+  (forall r, In r (csr_rows (csr_remove_duplicates F add small B)) -> NoDup (map fst r)).
+Proof.
+  split; [intros; apply (den_csr_remove_duplicates _ _ _ _ _ _ _ Fth)|].
+  split; [intros; apply (den_csc_remove_duplicates _ _ _ _ _ _ _ Fth)|].
+  intros r Hr. apply (csr_remove_duplicates_nodup F zero add small B r Hr).
+Qed.
+
+(* A+B and A-B *)
+Theorem C07_add_subtract (A B : csr F) : length (csr_rows B) <= length (csr_rows A) ->
+  (forall i j, denCsr (csr_add F add small A B true) i j = drop F zero small (add (denCsr A i j) (denCsr B i j))) /\
+  (forall i j, denCsr (csr_add F add small A B false) i j = add (denCsr A i j) (denCsr B i j)) /\
+  (forall i j, denCsr (csr_subtract F add opp small A B) i j = drop F zero small (sub (denCsr A i j) (denCsr B i j))).
+Proof.
+  intros Hl.
+  split; [intros; apply (den_csr_add F zero one add mul sub opp Fth small A B true); exact Hl|].
+  split; [intros; apply (den_csr_add F zero one add mul sub opp Fth small A B false); exact Hl|].
+  intros; apply (den_csr_subtract F zero one add mul sub opp Fth); exact Hl.
+Qed.
+
 End C07.
 
 Print Assumptions C07_coo_to_csr.
@@ -79,3 +129,7 @@ Print Assumptions C07_copies.
 Print Assumptions C07_coo_transpose.
 Print Assumptions C07_csr_transpose.
 Print Assumptions C07_csc_transpose.
+Print Assumptions C07_sort.
+Print Assumptions C07_move_diag.
+Print Assumptions C07_remove_duplicates.
+Print Assumptions C07_add_subtract.
